@@ -24,6 +24,12 @@ var otherTys = []fieldTy{
 	{reflect.TypeOf(namedStr("")), lst("o", "4", "1")},
 	{reflect.TypeOf(namedInt(0)), lst("o", "5", "0")},
 	{reflect.TypeOf([]int{}), lst("o", "6", "0")},
+	// interface, pointer-to-struct and func fields: their zero value is a nil that reflect
+	// cannot be asked much about
+	{reflect.TypeOf((*error)(nil)).Elem(), lst("o", "7", "0")},
+	{reflect.TypeOf((*any)(nil)).Elem(), lst("o", "8", "0")},
+	{reflect.TypeOf((*struct{ X int })(nil)), lst("o", "9", "0")},
+	{reflect.TypeOf((func())(nil)), lst("o", "10", "0")},
 }
 
 func genFieldTy(r *Rng) fieldTy {
